@@ -24,6 +24,18 @@ def AcceptedCreds (dec : Decoder) (cfg : Cfg) (pool : PoolObj) (s : Bytes) (e : 
     dec msgTypeCred p1 = .cred f ∧ check cfg (mergeCred pool f) = .ok res
 
 
+/-- what a failing side may have appended as its error ack -/
+def ErrTail (t : List WFrame) : Prop := t = [] ∨ ∃ c, c ≠ 0 ∧ c < 256 ∧ t = [.ack c]
+
+/-- bytes that are not (the beginning of) an ack frame carrying Null, whatever follows them -/
+def NotNullAck (dec : Decoder) (g : Bytes) : Prop :=
+  ∀ rest e p2 rest2 a, readRaw [msgTypeAck] (g ++ rest) e = .frame msgTypeAck p2 rest2 headerSize →
+    dec msgTypeAck p2 = .ack a → a ≠ none ∧ a ≠ some 0
+
+/-- bytes that are not (the beginning of) a credentials frame the checker of `cfg` accepts -/
+def NotAcceptable (dec : Decoder) (cfg : Cfg) (g : Bytes) : Prop :=
+  ∀ rest e, ¬ AcceptedCreds dec cfg .fresh (g ++ rest) e
+
 /-- frames written by a side are read back as themselves by the other side: protobuf round trip of
 `Credentials` / `Ack`, frames below the size limit. (Trusted for the real encoder; exercised by the
 correspondence runs on real bytes; proved for the toy encoder of the driver.) -/
